@@ -1,9 +1,79 @@
 import PyamgV.Driver.Util
-/-! Driver ops of extension task E24 (op names prefixed `ext_`). -/
+import PyamgV.Driver.C10
+import PyamgV.Model.ExtC10bImm
+import PyamgV.Model.ExtC10bGmres
+import PyamgV.Proofs.ExtC10bCFit
+import PyamgV.Proofs.ExtC10bGmresArr
+/-! Driver ops of extension task E24 (property C10; op names prefixed `ext_c10b_`):
+`ext_c10b_imm_csr` (`incomplete_mat_mult_csr`), `ext_c10b_gmres` (`gmres_prolongation_smoothing`, whole
+loop, with the hypotheses of the constraint theorems decided on the instance), `ext_c10b_p_cfit`
+(proof-side complex per-aggregate Gram-Schmidt `C10.cfitAgg`). -/
 namespace PyamgV.Drv.ExtE24
-open PyamgV PyamgV.Drv
+open PyamgV PyamgV.Drv PyamgV.Drv.C10 PyamgV.C10M PyamgV.C10bM
+
+/-- every matrix of the list annihilates `B` exactly and vanishes outside the block pattern -/
+def allConstrained (rpb cpb : Nat) (pat : Pat) (B : Mat Rat) (l : List (Mat Rat)) : Bool :=
+  l.all fun X =>
+    (Mat.mul X B).flat.all (· == 0) && (Mat.sub X (maskDense rpb cpb pat X)).flat.all (· == 0)
+
+/-- `PyamgV.C10.cfitAgg` for every aggregate on Gaussian rationals, laid out as dense `T`, `R`
+(complex above the diagonal, real on it) and the discarded remainders, like `pFit` -/
+def pCFit (nFine nCoarse K1 K2 : Nat) (ap aj : Array Nat) (b : Array CRat) (tol : Rat) :
+    Array CRat × Array CRat × Array CRat :=
+  let N := nFine * K1
+  let agg : Fin N → Option (Fin nCoarse) := fun i =>
+    let node := i.val / K1
+    if rdN ap (node + 1) > rdN ap node then
+      let a := rdN aj (rdN ap node)
+      if h : a < nCoarse then some ⟨a, h⟩ else none
+    else none
+  let B : Fin N → Nat → Rat × Rat := fun i c => let z := b.getD (i.val * K2 + c) 0; (z.re, z.im)
+  let outs := (List.finRange nCoarse).map fun a => PyamgV.C10.cfitAgg ratSqrt tol agg B K2 a
+  let cr (w : (Fin N → Rat) × (Fin N → Rat)) (i : Fin N) : CRat := ⟨w.1 i, w.2 i⟩
+  let dense := ((List.finRange N).flatMap fun i => outs.flatMap fun o =>
+    (List.range K2).map fun c => cr (o.q.getD c 0) i).toArray
+  let r := (outs.flatMap fun o => (List.range K2).flatMap fun bi => (List.range K2).map fun bj =>
+    let e := o.r.getD bj ([], 0)
+    if bi < bj then (let d := e.1.getD bi (0, 0); (⟨d.1, d.2⟩ : CRat)) else if bi = bj then ⟨e.2, 0⟩ else 0).toArray
+  let drop := ((List.finRange N).flatMap fun i => outs.flatMap fun o =>
+    (List.range K2).map fun c => cr (o.drop.getD c 0) i).toArray
+  (dense, r, drop)
 
 def handle : List String → Option String
+  | ["ext_c10b_imm_csr", "r", ap, aj, ax, bp, bj, bx, sp, sj, sx, n] =>
+    some <| showRats (incompleteMatMultCsr (parseNats ap) (parseNats aj) (parseRats ax) (parseNats bp) (parseNats bj)
+      (parseRats bx) (parseNats sp) (parseNats sj) (parseRats sx) (nat n))
+  | ["ext_c10b_imm_csr", "c", ap, aj, ax, bp, bj, bx, sp, sj, sx, n] =>
+    some <| showCRats (incompleteMatMultCsr (parseNats ap) (parseNats aj) (parseCRats ax) (parseNats bp) (parseNats bj)
+      (parseCRats bx) (parseNats sp) (parseNats sj) (parseCRats sx) (nat n))
+  | ["ext_c10b_gmres", wt, bs, rpb, cpb, nd, pat, n, m, a, aux, t, b, maxiter, tol, cpts] =>
+    let A := matR n n a
+    let T := matR n m t
+    let B := matR m nd b
+    let pt := parsePat pat
+    match mkPrecond (nat wt) (nat bs) A (parseRats aux) with
+    | none => some "singular"
+    | some pre =>
+      match energyGmres ratScal (nat rpb) (nat cpb) (nat nd) pt A pre T B (nat maxiter) (parseRat tol) (parseNats cpts) with
+      | none => some "singular"
+      | some o =>
+        let c := o.core
+        let flags := (if c.ok then "ok" else "singular") ++ "," ++ (if c.breakdown then "breakdown" else "regular") ++ "," ++
+          (if c.lucky then "lucky" else "generic") ++ "," ++
+          -- hypothesis `hchk` of `C10b.gmres_run_checked` decided on the instance (every projected matrix of the run
+          -- annihilates B and vanishes outside the pattern), with the checkers the theorem is about
+          (if c.projs.all (fun Y => PyamgV.C10b.annihilates Y B && PyamgV.C10b.offPatternZero (nat rpb) (nat cpb) pt Y)
+              && allConstrained (nat rpb) (nat cpb) pt B c.projs
+            then "projs-constrained" else "PROJS-UNCONSTRAINED") ++ "," ++
+          -- its conclusion, and the hypotheses of updates_keep_product / updates_keep_pattern
+          (if upsConstrained (nat rpb) (nat cpb) pt B c.ups then "constrained" else "UNCONSTRAINED") ++ "," ++
+          (if pApply (nat n) (nat m) T c.ups == c.T.flat then "fold" else "NOFOLD") ++ "," ++
+          (if (Mat.mul c.T B).flat == (Mat.mul T B).flat then "product" else "NOPRODUCT")
+        some <| showMatR o.T ++ ";" ++ flags ++ ";" ++ showRats c.normrs.toArray ++ ";" ++ toString c.ups.length ++ ";" ++
+          showRats c.hns.toArray ++ ";" ++ showRats c.diag.toArray
+  | ["ext_c10b_p_cfit", nf, nc, k1, k2, ap, aj, b, tol] =>
+    let (d, r, dr) := pCFit (nat nf) (nat nc) (nat k1) (nat k2) (parseNats ap) (parseNats aj) (parseCRats b) (parseRat tol)
+    some <| showCRats d ++ ";" ++ showCRats r ++ ";" ++ showCRats dr
   | _ => none
 
 end PyamgV.Drv.ExtE24
